@@ -41,8 +41,9 @@ type c39Fail struct {
 }
 
 // c39RoundTrip encodes the sub-chunks selected by mask and checks every Get. skipAbsentCounter
-// leaves out the one assertion of the known finding (and reports how many were left out).
-func c39RoundTrip(sub [5]chunkenc.Chunk, mask int, skipAbsentCounter bool) (fails []c39Fail, skipped int) {
+// leaves out the one assertion of the known finding (and reports how many were left out);
+// numSamples=false is for opaque payloads that are not decodable chunks.
+func c39RoundTrip(sub [5]chunkenc.Chunk, mask int, skipAbsentCounter, numSamples bool) (fails []c39Fail, skipped int) {
 	var in [5]chunkenc.Chunk
 	for i := range in {
 		if mask&(1<<i) != 0 {
@@ -77,7 +78,7 @@ func c39RoundTrip(sub [5]chunkenc.Chunk, mask int, skipAbsentCounter bool) (fail
 			fails = append(fails, c39Fail{msg: fmt.Sprintf("mask %05b: Get(%s) returned encoding %v / %d bytes, encoded %v / %d bytes", mask, at, c.Encoding(), len(c.Bytes()), in[i].Encoding(), len(in[i].Bytes()))})
 		}
 	}
-	if in[downsample.AggrCount] != nil {
+	if numSamples && in[downsample.AggrCount] != nil {
 		if got, want := ac.NumSamples(), in[downsample.AggrCount].NumSamples(); got != want {
 			fails = append(fails, c39Fail{msg: fmt.Sprintf("mask %05b: NumSamples %d, count chunk has %d", mask, got, want)})
 		}
@@ -215,7 +216,7 @@ func TestVerifC39(t *testing.T) {
 		sub := c39FixedChunks()
 		var f15 []string
 		for mask := 0; mask < 32; mask++ {
-			fails, _ := c39RoundTrip(sub, mask, false)
+			fails, _ := c39RoundTrip(sub, mask, false, true)
 			for _, f := range fails {
 				if f.sig == sigC39AbsentCounter {
 					f15 = append(f15, fmt.Sprintf("%05b", mask))
@@ -253,7 +254,7 @@ func TestVerifC39(t *testing.T) {
 			}
 		}
 		for mask := 0; mask < 32; mask++ {
-			fails, skipped := c39RoundTrip(sub, mask, known[sigC39AbsentCounter])
+			fails, skipped := c39RoundTrip(sub, mask, known[sigC39AbsentCounter], true)
 			for i := 0; i < skipped; i++ {
 				rec.Excluded(sigC39AbsentCounter)
 			}
@@ -524,47 +525,10 @@ func FuzzVerifC39Decode(f *testing.F) {
 			rest = rest[n:]
 		}
 		for mask := 0; mask < 32; mask++ {
-			fails, _ := c39RoundTripBytes(sub, mask, known[sigC39AbsentCounter])
+			fails, _ := c39RoundTrip(sub, mask, known[sigC39AbsentCounter], false)
 			if len(fails) > 0 {
 				t.Fatalf("C39 violated: %s (signature %q)\nbytes: % x", fails[0].msg, fails[0].sig, b)
 			}
 		}
 	})
-}
-
-// c39RoundTripBytes is c39RoundTrip without the NumSamples comparison (opaque payloads are not
-// decodable chunks).
-func c39RoundTripBytes(sub [5]chunkenc.Chunk, mask int, skipAbsentCounter bool) ([]c39Fail, int) {
-	var in [5]chunkenc.Chunk
-	for i := range in {
-		if mask&(1<<i) != 0 {
-			in[i] = sub[i]
-		}
-	}
-	ac := downsample.AggrChunk(append([]byte(nil), downsample.EncodeAggrChunk(in).Bytes()...))
-	var fails []c39Fail
-	skipped := 0
-	for i := range in {
-		at := downsample.AggrType(i)
-		if in[i] == nil && at == downsample.AggrCounter && skipAbsentCounter {
-			skipped++
-			continue
-		}
-		c, err := ac.Get(at)
-		switch {
-		case in[i] == nil:
-			if !errors.Is(err, downsample.ErrAggrNotExist) {
-				f := c39Fail{msg: fmt.Sprintf("mask %05b: Get(%s) of an absent aggregate returned (%v, %v), want ErrAggrNotExist", mask, at, c, err)}
-				if at == downsample.AggrCounter && err != nil {
-					f.sig = sigC39AbsentCounter
-				}
-				fails = append(fails, f)
-			}
-		case err != nil:
-			fails = append(fails, c39Fail{msg: fmt.Sprintf("mask %05b: Get(%s) of a present aggregate: %v", mask, at, err)})
-		case c.Encoding() != in[i].Encoding() || !bytes.Equal(c.Bytes(), in[i].Bytes()):
-			fails = append(fails, c39Fail{msg: fmt.Sprintf("mask %05b: Get(%s) returned different bytes", mask, at)})
-		}
-	}
-	return fails, skipped
 }
